@@ -295,6 +295,10 @@ def check(model, tier):
                 f"{c.name}.is_empty_invariant is {val} but the operation {'can' if CAN_EMPTY[c.name] else 'cannot'} turn a non-empty input into an empty output",
                 fi=fn,
             )
+    from ..rules import sqlemit as _sqlemit
+
+    # a relation diagnosed as doomed because its predicate is trivially false must also compile to a query without rows
+    _sqlemit.r_flattened_predicate(ctx, "R16.7")
     run.assume("max_rows == 0 is truthful (C06 is not decided statically)")
     run.assume("the executor answers truthfully")
     from ..rules.foundation import run_foundation
